@@ -414,6 +414,20 @@ theorem stream_frag_sound (codec : Codec) (hrt : codec.RoundTrip) (h : List UInt
   rw [hBs] at hr
   exact ⟨hr, hz.fok, frag_sound codec hrt h B s.fevs hz.fok s.fres s.fd hr⟩
 
+/-- **The composed model only ever refuses schedules.** Whatever the schedule, the only way a run ends in an error is an
+event the local C control flow cannot produce (`badEvent`: nothing to submit / dequeue, `complete` with the wrong head
+of the I/O queue, `finish` before `sync` has drained everything) or `begin_file` flags the code rejects
+(`unsupported`).  In particular `write_data_block` never fails on the processor's call stream, the fragment path never
+reports `SQFS_ERROR_CORRUPTED` or a failed re-read, a fragment block coming back from the pool is always in flight in the
+fragment model, and the model's consistency exit `Err.internal` is unreachable: the worked fragment block that reaches
+`process_completed_block` is exactly what the fragment model says is stored (invariant `PInv`: every fragment block in
+the pool or the I/O queue is `process_block` applied to an in-flight block of the fragment model, at most one per
+index).  So the `stream_*` theorems above are about *every* run that the schedule admits. -/
+theorem stream_no_error (codec : Codec) (hrt : codec.RoundTrip) (h : List UInt8 → UInt32) (B : Nat) (hB0 : 0 < B)
+    (hB : B < 2 ^ 24) (hfit : Fits codec B) (pre : List UInt8) (evs : List C08Stream.Ev) (x : C08Stream.Err)
+    (hrun : C08Stream.run codec h (C08Stream.init B pre) evs = .error x) : x = .badEvent ∨ x = .unsupported :=
+  run_total codec hrt h evs (AllInv_init codec h B pre hfit hB0 hB) x hrun
+
 /-! ### non-vacuity: block size 4, constant checksum, toy RLE codec.  Three files: `1111 78`, `1111 79` (full block equal to
 the first file's → shared, its copy cut), `555` (does not fit into fragment block 0 → block 0 is closed while the tail end
 is dequeued, gets sequence number 4 and is written between the files; block 1 is closed by `finish`). -/
